@@ -39,14 +39,15 @@ RECORDS = {
         'id': ('s_id', 'id'), 'balance': ('s_balance', 'Q'), 'membership': ('s_mem', 'Membership')},
     'Vehicle': {
         'id': ('v_id', 'id'), 'balance': ('v_balance', 'Q'), 'distance_traveled_km': ('v_odo', 'Q'),
-        'membership': ('v_mem', 'Membership'),
+        'membership': ('v_mem', 'Membership'), 'vehicle_state': ('v_state', 'VState'), 'driver_state': ('v_driver', 'Driver'),
+        'mechatronics_id': ('v_mech', 'id'),
         # single-energy-type idiom: the three maps collapse to one number each
         'energy': ('v_energy', 'EMap'), 'energy_gained': ('v_gained', 'EMap'),
         'energy_expended': ('v_expended', 'EMap')},
     'Request': {
         'id': ('r_id', 'id'), 'dispatched_vehicle': ('r_disp', 'option id'),
         'dispatched_vehicle_time': ('r_disp_time', 'option Z'), 'value': ('r_value', 'Q'),
-        'departure_time': ('r_dep', 'Z')},
+        'departure_time': ('r_dep', 'Z'), 'membership': ('r_mem', 'Membership')},
     'Sim': {'sim_time': ('sim_time', 'Z'), 'sim_timestep_duration_seconds': ('dt', 'Z')},
     'LinkT': {
         'link_id': ('l_id', 'linkid'), 'start': ('l_start', 'geoid'), 'end': ('l_end', 'geoid'),
@@ -225,7 +226,14 @@ class Translator:
             # EnergyType.X
             if isinstance(e.value, ast.Name) and e.value.id == 'EnergyType':
                 return {'ELECTRIC': 'Electric', 'GASOLINE': 'Gasoline'}[e.attr], 'EnergyType'
+            # idiom: environment.config.dispatcher.<name> is a free variable <name> of the kernel (a configuration value)
+            if (isinstance(e.value, ast.Attribute) and e.value.attr == 'dispatcher' and isinstance(e.value.value, ast.Attribute)
+                    and e.value.value.attr == 'config' and isinstance(e.value.value.value, ast.Name) and e.value.value.value.id == 'environment'
+                    and e.attr in env):
+                return env[e.attr]
             bt, bty = self._expr(e.value, cx)
+            if bty == 'Driver' and e.attr == 'available':
+                return f'(driver_available {bt})', 'bool'
             # idiom: LinkTraversal.travel_time_seconds property
             if bty == 'LinkT' and e.attr == 'travel_time_seconds':
                 return f'(link_travel_time_seconds {bt})', 'Z'
@@ -283,6 +291,18 @@ class Translator:
                 return (f'(Z.opp {t})', 'Z') if ty == 'Z' else (f'(Qopp {t})', 'Q')
             raise Untranslatable('unary op')
         if isinstance(e, ast.BoolOp):
+            # `X is not None and <uses X>`: the later operands see X refined to its content
+            if isinstance(e.op, ast.And) and len(e.values) >= 2:
+                rf = self.option_test(e.values[0], cx)
+                if rf is not None and rf[2]:
+                    ot, inner, _ = rf
+                    nm = self.fresh()
+                    cxs = cx.child(); cxs.refine[ast.dump(self.option_subject(e.values[0]))] = (nm, inner)
+                    rest_parts = [self.truthy(*self._expr(v, cxs)) for v in e.values[1:]]
+                    t = rest_parts[0]
+                    for p_ in rest_parts[1:]:
+                        t = f'(andb {t} {p_})'
+                    return f'(match {ot} with Some {nm} => {t} | None => false end)', 'bool'
             parts = [self.truthy(*self._expr(v, cx)) for v in e.values]
             op = 'andb' if isinstance(e.op, ast.And) else 'orb'
             t = parts[0]
@@ -393,6 +413,9 @@ class Translator:
             if bty == 'Membership':
                 r = f'(smem {at} {bt})'
                 return r if isinstance(op, ast.In) else f'(negb {r})'
+            if bty == 'list SKind' and aty == 'SKind':
+                r = f'(existsb (skind_eqb {at}) {bt})'
+                return r if isinstance(op, ast.In) else f'(negb {r})'
             raise Untranslatable('in')
         at, aty = self._expr(a, cx)
         bt, bty = self._expr(b, cx)
@@ -446,6 +469,29 @@ class Translator:
 
     def call(self, e, cx):
         f = e.func
+        # idiom: <activity>.__class__.__name__.lower()  ->  state_kind
+        if (isinstance(f, ast.Attribute) and f.attr == 'lower' and not e.args and isinstance(f.value, ast.Attribute) and f.value.attr == '__name__'
+                and isinstance(f.value.value, ast.Attribute) and f.value.value.attr == '__class__'):
+            t, ty = self._expr(f.value.value.value, cx)
+            if ty != 'VState':
+                raise Untranslatable(f'class name of {ty}')
+            return f'(state_kind {t})', 'SKind'
+        # idiom: environment.mechatronics.get(id)
+        if (isinstance(f, ast.Attribute) and f.attr == 'get' and isinstance(f.value, ast.Attribute) and f.value.attr == 'mechatronics'
+                and isinstance(f.value.value, ast.Name) and cx.env.get(f.value.value.id, (None, None))[1] == 'Env' and len(e.args) == 1):
+            a, _ = self.expr(e.args[0], cx, 'id')
+            return f'(e_mech {cx.env[f.value.value.id][0]} {a})', 'option Mech'
+        # idiom: mechatronics.range_remaining_km(vehicle): dynamic dispatch on the powertrain kind
+        if isinstance(f, ast.Attribute) and f.attr == 'range_remaining_km' and len(e.args) == 1:
+            mt, mty = self._expr(f.value, cx)
+            if mty == 'Mech':
+                vt, _ = self.expr(e.args[0], cx, 'Vehicle')
+                return f'(match m_kind {mt} with BEV => bev_range_remaining_km {mt} {vt} | ICE => ice_range_remaining_km {mt} {vt} end)', 'Q'
+        # idiom: isinstance(<activity>, ChargingBase)
+        if isinstance(f, ast.Name) and f.id == 'isinstance' and len(e.args) == 2 and isinstance(e.args[1], ast.Name) and e.args[1].id == 'ChargingBase':
+            t, ty = self._expr(e.args[0], cx)
+            if ty == 'VState':
+                return f'(match {t} with ChargingBase _ _ => true | _ => false end)', 'bool'
         # max / min / int / float / bool / len
         if isinstance(f, ast.Name):
             if f.id in ('max', 'min') and len(e.args) == 2:
@@ -605,7 +651,8 @@ class Translator:
                     return True
             if isinstance(tg, ast.Attribute) and tg.attr == '__cause__':
                 return True
-            if isinstance(tg, ast.Name) and any(isinstance(n, ast.Attribute) and n.attr == '__class__' for n in ast.walk(st.value)):
+            if isinstance(tg, ast.Name) and any(isinstance(n, ast.Attribute) and n.attr == '__class__' for n in ast.walk(st.value)) \
+                    and not (isinstance(st.value, ast.Call) and isinstance(st.value.func, ast.Attribute) and st.value.func.attr == 'lower'):
                 return True
         return False
 
@@ -771,6 +818,16 @@ class Translator:
                 return (f'let {pat} := (if {c}\n    then ({la}{tup})\n    else ({lb}{tup})) in\n  {body}')
             if st.orelse:
                 if rest and not (self.always_returns(st.body) and self.always_returns(st.orelse)):
+                    # one branch returns, the other falls through to the statements that follow (an if / elif chain of early
+                    # returns without a final else): the rest belongs to the branch that falls through
+                    if self.always_returns(st.body):
+                        a = self.block(st.body, cx)
+                        b = self.block(st.orelse + rest, cx)
+                        return f'(if {c} then {a}\n   else {b})'
+                    if self.always_returns(st.orelse):
+                        a = self.block(st.body + rest, cx)
+                        b = self.block(st.orelse, cx)
+                        return f'(if {c} then {a}\n   else {b})'
                     raise Untranslatable('if/else that falls through with statements after it')
                 a = self.block(st.body + ([] if self.always_returns(st.body) else rest), cx)
                 b = self.block(st.orelse + ([] if self.always_returns(st.orelse) else rest), cx)
